@@ -9,18 +9,18 @@ TECH = "deterministic simulation: seeded schedule + fault search over the real l
 
 CHECKS = {
  "C03": ("SIM-SYS", "seeded search over schedules (random walk and PCT), queue/backend configurations, thread start/exit histories and stall faults with the real frontend, queues and backend thread; per-thread exactly-once / in-order / intact oracle on recording sinks; sampling, not proof", SIMSYS_NOTE, TECH),
- "C07": ("SIM-SYS", "seeded search over programs x terminal events x schedules: Backend::stop()/start() cycles judged in-process at the moment stop() returns (file read back through a fresh descriptor), exit(n) and each of SIGSEGV/SIGABRT/SIGFPE/SIGILL/SIGINT/SIGTERM (raised and really faulted) placed after 0-8 statements of a victim thread with the backend busy, stalled or idle; the child really exits or dies and the parent judges wait status and file contents; sampling, not proof", SIMSYS_NOTE + "; alarm() is recorded, never armed; plain flavour only; after exit() began other user threads finish their current call and park", TECH),
- "C08": ("SIM-SYS", "seeded search over schedules, dropping queue configurations, bursts sized against the capacity (incl. never-fitting sizes), backend stalls, control requests while the queue is full and threads that exit after dropping; oracle relates log-call return values x recording sink x parsed notifier drop counts per thread; control-request liveness judged in the fair phase and control-request effect observed (backtrace init / fill / flush on a private logger must replay exactly min(capacity, stored); blocking logger removal after a burst must return); sampling, not proof", SIMSYS_NOTE, TECH),
+ "C07": ("SIM-SYS", "seeded search over programs x terminal events x schedules: Backend::stop()/start() cycles judged in-process at the moment stop() returns (file read back through a fresh descriptor), exit(n) and each of SIGSEGV/SIGABRT/SIGFPE/SIGILL/SIGINT/SIGTERM (raised and really faulted) placed after 0-8 statements of a victim thread with the backend busy, stalled or idle; FileSink and RotatingFileSink destinations; a logger removed before the stop / exit / signal (backend held in its idle round); signal runs also with wait_for_queues_to_empty_before_exit off; the child really exits or dies and the parent judges wait status and file contents; sampling, not proof", SIMSYS_NOTE + "; alarm() is recorded, never armed; plain flavour only; after exit() began other user threads finish their current call and park", TECH),
+ "C08": ("SIM-SYS", "seeded search over schedules, dropping queue configurations, bursts sized against the capacity (incl. never-fitting sizes, and an unbounded maximum that is not a power of two), backend stalls, control requests while the queue is full and threads that exit after dropping; oracle relates log-call return values x recording sink x parsed notifier drop counts per thread; control-request liveness judged in the fair phase and control-request effect observed (backtrace init / fill / flush on a private logger must replay exactly min(capacity, stored); blocking logger removal after a burst must return); sampling, not proof", SIMSYS_NOTE, TECH),
  "C09": ("SIM-Q+SIM-SYS", "two levels: (SIM-Q) the real queue classes driven to a quiescent state (consumer drained and idle exactly as the backend does) followed by a request <= capacity, where 'still refused' is an exact verdict, under the weak-memory scheduler; (SIM-SYS) end-to-end histories followed by a statement of any encoded size up to the capacity, liveness judged in the fair phase; sampling, not proof", SIMSYS_NOTE, TECH),
- "C10": ("SIM-SYS", "seeded search over fault plans attached to statements (sink write/flush throws, fwrite ENOSPC on a real FileSink, run-time format mismatch, user formatter throwing std / non-std types, LOG_BACKTRACE without init) x schedules; neighbours-intact exactly-once oracle per sink, file content oracle, notifier count, backend liveness in the fair phase; real sinks included: FileSink (with and without FileEventNotifier callbacks) under fwrite failures, JsonFileSink whose before_write callback rejects chosen statements (every line must be one JSON object, nothing of a failed statement may be glued to the next); statements with placeholders and no arguments; sampling, not proof", SIMSYS_NOTE, TECH),
+ "C10": ("SIM-SYS", "seeded search over fault plans attached to statements (sink write/flush throws, fwrite ENOSPC on a real FileSink, run-time format mismatch, user formatter throwing std / non-std types, LOG_BACKTRACE without init) x schedules; neighbours-intact exactly-once oracle per sink, file content oracle, notifier count, backend liveness in the fair phase; real sinks included: FileSink (with and without FileEventNotifier callbacks) and RotatingFileSink under fwrite failures, JsonFileSink whose before_write callback rejects chosen statements (every line must be one JSON object, nothing of a failed statement may be glued to the next); statements with placeholders and no arguments; sampling, not proof", SIMSYS_NOTE, TECH),
  "C11": ("SIM-SYS", "seeded search over the typed call-site pool restricted to the property's listed types x schedules (whether a record fits depends on backend draining): interposed malloc-family / mmap calls counted per simulated thread between entry to and return from each real LOG_INFO call (0 required unless first call of the thread or the queue capacity changed); user formatters record the simulated thread they run on (deferred: backend, direct: caller); queue growth is excused only when it can have been necessary (a statement of known size filling a drained queue to 94-100 % must not grow it); sampling, not proof", SIMSYS_NOTE + "; plain flavour only (ASan owns malloc)", TECH),
  "C16": ("SIM-SYS", "seeded search over level / threshold / filter configurations x schedules: statements at every static level and dynamic levels through the real LOG_* macros (argument side-effect counter) and log_statement, logger levels changing concurrently, sink thresholds / filters changing at quiescent barriers, override patterns, transit buffers of capacity 1-4 so slots are reused by statements of different kinds; per-sink acceptance model + line/level/named-argument attribution; sampling, not proof", SIMSYS_NOTE, TECH),
- "C17": ("SIM-SYS", "seeded search over create / lookup / remove (asynchronous and blocking) / re-create histories with sinks shared in random patterns, removal while statements are still queued, backend stalls around the removal, scoped CsvWriter cycles over a small pool of file names, x schedules; exactly-once delivery, registry model (lookup idempotent, blocking removal complete on return, new sinks after re-creation), sink destruction iff unreferenced, blocking-removal liveness in the fair phase; ASan flavour in the thorough tier for premature frees; sampling, not proof", SIMSYS_NOTE + "; API contract respected by construction (barriers before removal, no same-name re-creation after asynchronous removal)", TECH),
+ "C17": ("SIM-SYS", "seeded search over create / lookup / remove (asynchronous and blocking) / re-create histories with sinks shared in random patterns, removal while statements are still queued, backend stalls around the removal, scoped CsvWriter cycles over a small pool of file names, real FileSinks whose callbacks report the closing of the file (judged by the file as it was when it was closed), x schedules; exactly-once delivery, registry model (lookup idempotent, blocking removal complete on return, new sinks after re-creation), sink destruction iff unreferenced, blocking-removal liveness in the fair phase; ASan flavour in the thorough tier for premature frees; sampling, not proof", SIMSYS_NOTE + "; API contract respected by construction (barriers before removal, no same-name re-creation after asynchronous removal)", TECH),
  "C18": ("SIM-SYS", "seeded search over store/flush/re-init histories (capacity 1-8, 0..3*capacity+3 stores per cycle, explicit and flush-level triggered flushes, several cycles incl. after a wrapped flush; 1 run in 4: 2-3 threads storing into one ring concurrently, flush after they are joined) x schedules; sink sequence compared with an executable reference ring model (multi-writer: count, per-thread most-recent suffix, attribution); a sink throwing during a replay as fault variant; sampling, not proof", SIMSYS_NOTE + "; exact model with one writer thread per backtrace logger, re-initialisation only with an empty ring", TECH),
  "C20": ("SIM-SYS", "seeded search over thread start/exit histories (waves of 1-512 real short-lived threads, sizes biased to k*256+-1, backend stalled or busy during the wave), shrink requests after growth; context count through the public ThreadContextManager API at a quiescent point in the fair phase + exactly-once delivery oracle; sampling, not proof", SIMSYS_NOTE, TECH),
  "C04": ("SIM-SYS", "seeded search over a compiled pool of 58 typed call sites (incl. the LOGV_ / LOGJ_ / _LIMIT / _LIMIT_EVERY_N / _TAGS / runtime-metadata macro families; value space sampled by a seeded generator) x schedules that decide whether the backend decodes before or after the caller overwrote and destroyed its arguments, at which ring offset the record lies and whether the queue grows at this record; expected text = fmtquill::format at the call site + the sanitisation configured for the run (library default, a stricter user check_printable_char, or none); quill's own size-accounting asserts enabled, every following statement of the thread must still decode; sampling, not proof", SIMSYS_NOTE + "; the value space part is ordinary seeded generation — the simulator contributes the timing of decode vs mutation and record placement", TECH),
  "C05": ("SIM-SYS", "seeded search over schedules with a virtual clock (System and TSC), stalls between a thread's clock read and its commit, backend stalls at the clock read of a pass next to first-time threads, small soft/hard limits; running-maximum timestamp oracle over all write_log calls with a conservative lateness excuse; sampling, not proof", SIMSYS_NOTE + "; TSC runs tolerate inversions below RdtscClock's 3.4 us resync window", TECH),
- "C06": ("SIM-SYS", "seeded search over schedules, all four queue types, first-time threads next to backend stalls, recording and real file sinks; the oracle is evaluated in the very scheduler step in which flush_log() returns (sink records, flush marks, file read back through a fresh descriptor); liveness judged only in the fair phase; sampling, not proof", SIMSYS_NOTE + "; cross-thread clause with a TSC logger involved demanded only beyond RdtscClock's 3.4 us resync window", TECH),
+ "C06": ("SIM-SYS", "seeded search over schedules, all four queue types, first-time threads next to backend stalls, recording and real file sinks (FileSink, and RotatingFileSink whose destination is the set of its files); the oracle is evaluated in the very scheduler step in which flush_log() returns (sink records, flush marks, file read back through a fresh descriptor); liveness judged only in the fair phase; sampling, not proof", SIMSYS_NOTE + "; cross-thread clause with a TSC logger involved demanded only beyond RdtscClock's 3.4 us resync window", TECH),
 }
 
 
